@@ -90,33 +90,72 @@ def region_value(pcs, var, lo, hi):
     return hits[0]
 
 
-def nonneg_poly(expr, u, strict=False):
-    """Sign domain: expr is a ratio of polynomials in the non-negative symbol u whose coefficients are all
-    non-negative (strict: numerator has a positive constant term, so expr > 0 for all u >= 0)."""
-    num, den = sp.fraction(sp.together(sp.expand(expr)))
-    res = True
-    for part, need_pos in ((num, strict), (den, True)):
-        P = sp.Poly(sp.expand(part), u)
-        cs = P.all_coeffs()
-        if any(c < 0 for c in cs):
-            # try the negated form (both numerator and denominator negative)
+def exact(e):
+    """binary floating literals of the source (0.5, 1.0, ...) as exact rationals"""
+    return sp.nsimplify(e, rational=True)
+
+
+def sign_on_halfline(e, u, strict=True, open_end=False):
+    """Is e > 0 (>= 0 when not strict) for every u >= 0 (u > 0 with open_end)?  True / False are decided exactly:
+    by sympy's sign assumptions, or - for a ratio of polynomials in u - by counting real roots (Sturm sequences) and
+    evaluating the sign between them.  None: not decided."""
+    e = exact(sp.together(sp.expand(e)))
+    if (e.is_positive if strict else e.is_nonnegative):
+        return True
+    if e.is_negative:
+        return False
+    num, den = sp.fraction(sp.together(e))
+    try:
+        Pn, Pd = sp.Poly(sp.expand(num), u), sp.Poly(sp.expand(den), u)
+    except sp.PolynomialError:
+        return None
+    if (Pn.free_symbols | Pd.free_symbols) - {u} or not all(c.is_Rational for c in Pn.all_coeffs() + Pd.all_coeffs()):
+        return None
+    if Pd.count_roots(0, sp.oo) > 0:
+        return None             # a pole on the half-line: the expression is not a function there
+    cuts = sorted(set(r for r in sp.real_roots(Pn) if r >= 0), key=lambda r: sp.N(r, 50))
+    if strict:
+        inner = [r for r in cuts if r > 0 or not open_end]
+        if inner:
+            return False        # the value is exactly zero there
+    pts = []
+    ends = [sp.Integer(0)] + cuts + [None]
+    for lo, hi in zip(ends[:-1], ends[1:]):
+        if hi is None:
+            pts.append(lo + 1)
+        elif hi != lo:
+            pts.append((lo + hi) / 2)
+    for x in pts:
+        v = sp.N((num / den).subs(u, x), 60)
+        if v < 0:
             return False
-        if need_pos and not (cs[-1] > 0):
-            res = False
-    return res
+    return True
 
 
 def pos_on(expr, var, side, b, strict=True, open_end=False):
-    """expr > 0 (>= 0) for var on one side of b: substitute var = b +/- u, u >= 0."""
+    """expr > 0 (>= 0) for var on one side of b: substitute var = b +/- u, u >= 0.  Undecided is analysis-broken."""
     u = sp.Symbol("u", nonnegative=True)
     e = sp.expand(expr.subs(var, b + u if side > 0 else b - u))
-    if nonneg_poly(e, u, strict=strict):
+    r = sign_on_halfline(e, u, strict=strict, open_end=open_end)
+    if r is None:
+        raise Broken("sign of %s for %s %s %s not decided" % (expr, var, ">=" if side > 0 else "<=", b))
+    return r
+
+
+def identically_zero(e, syms):
+    """e == 0 as a function of the non-negative symbols syms?  True when simplification proves it; False when evaluation
+    at an exact sample point (60 digits) gives a non-zero value, which refutes the identity; otherwise undecided."""
+    e = exact(e)
+    if sp.simplify(e) == 0:
         return True
-    if open_end and strict:
-        # strictly positive for u > 0 only: e = u * (positive)
-        q = sp.cancel(e / u)
-        return nonneg_poly(q, u, strict=True)
-    return False
+    for k in (Rational(1, 3), Rational(2, 1), Rational(7, 5)):
+        try:
+            v = sp.N(e.subs({s_: k for s_ in syms}), 60)
+        except Exception:
+            continue
+        if v.is_number and v.is_finite and abs(v) > sp.Float("1e-40"):
+            return False
+    raise Broken("identity %s = 0 not decided" % e)
 
 
 def sqrt_simplify(e, assume_nonneg):
@@ -214,12 +253,12 @@ def run(chk):
     u = sp.Symbol("u", nonnegative=True)
     # tau = b + u  -> T = right(tau) >= Tb -> toTau upper branch
     comp_r = sqrt_simplify(a_hi.subs(T, right.subs(tau, b + u)), u)
-    chk.ob("C17-R2", "toTau(toTime(tau)) = tau right of the switch", sp.simplify(comp_r - (b + u)) == 0, loc(fs["toTau"]), "composition with tau=b+u: %s" % comp_r,
+    chk.ob("C17-R2", "toTau(toTime(tau)) = tau right of the switch", identically_zero(comp_r - (b + u), [u]), loc(fs["toTau"]), "composition with tau=b+u: %s" % comp_r,
            construct="QuadInvTimeMap/inverse/right")
     chk.ob("C17-R2", "toTime maps the right side into toTau's upper branch", pos_on(right - Tb, tau, +1, b, strict=False), where, str(sp.expand(right - Tb)),
            construct="QuadInvTimeMap/inverse/right-branch")
     comp_l = sqrt_simplify(a_lo.subs(T, left.subs(tau, b - u)), u)
-    chk.ob("C17-R2", "toTau(toTime(tau)) = tau left of the switch", sp.simplify(comp_l - (b - u)) == 0, loc(fs["toTau"]), "composition with tau=b-u: %s" % comp_l,
+    chk.ob("C17-R2", "toTau(toTime(tau)) = tau left of the switch", identically_zero(comp_l - (b - u), [u]), loc(fs["toTau"]), "composition with tau=b-u: %s" % comp_l,
            construct="QuadInvTimeMap/inverse/left")
     chk.ob("C17-R2", "toTime maps the left side into toTau's lower branch", pos_on(Tb - left, tau, -1, b, strict=False), where, str(sp.simplify(Tb - left)),
            construct="QuadInvTimeMap/inverse/left-branch")
@@ -227,11 +266,11 @@ def run(chk):
     w = sp.Symbol("w", nonnegative=True)
     tau_hi = a_hi.subs(T, Tb + w)
     val_hi = sp.simplify(right.subs(tau, tau_hi) - (Tb + w))
-    chk.ob("C17-R2", "toTime(toTau(T)) = T for T above the switch", val_hi == 0, loc(fs["toTau"]), "residual %s" % val_hi, construct="QuadInvTimeMap/inverse/T-high")
+    chk.ob("C17-R2", "toTime(toTau(T)) = T for T above the switch", identically_zero(val_hi, [w]), loc(fs["toTau"]), "residual %s" % val_hi, construct="QuadInvTimeMap/inverse/T-high")
     Tl = Tb / (1 + w)
     tau_lo = a_lo.subs(T, Tl)
     val_lo = sp.simplify(left.subs(tau, tau_lo) - Tl)
-    chk.ob("C17-R2", "toTime(toTau(T)) = T for 0 < T below the switch", val_lo == 0, loc(fs["toTau"]), "residual %s" % val_lo, construct="QuadInvTimeMap/inverse/T-low")
+    chk.ob("C17-R2", "toTime(toTau(T)) = T for 0 < T below the switch", identically_zero(val_lo, [w]), loc(fs["toTau"]), "residual %s" % val_lo, construct="QuadInvTimeMap/inverse/T-low")
     # toTau lands on the matching side: a_hi(T>=Tb) >= b ; a_lo(T<=Tb) <= b
     chk.ob("C17-R2", "toTau maps T above the switch to tau right of it", sqrt_nonneg(tau_hi - b, w), loc(fs["toTau"]), str(tau_hi), construct="QuadInvTimeMap/inverse/T-high-side")
     chk.ob("C17-R2", "toTau maps T below the switch to tau left of it", sqrt_nonneg(b - tau_lo, w), loc(fs["toTau"]), str(tau_lo), construct="QuadInvTimeMap/inverse/T-low-side")
@@ -248,31 +287,37 @@ def run(chk):
     chk.floor("C17-R3", 4)
     chk.floor("C17-R4", 3)
     chk.not_decided = ["monotonicity between adjacent floating-point numbers", "accuracy of the inverse near |tau| = 1e6 (rounding)"]
-    chk.trusted.append("sympy calculus (diff, simplify) on the extracted closed forms; sign domain = non-negative polynomial coefficients in u >= 0")
+    chk.trusted.append("sympy calculus (diff, simplify, exact real-root counting) on the extracted closed forms; identities refuted only by exact evaluation at a sample point")
 
 
 def sqrt_nonneg(e, w):
-    """e >= 0 for w >= 0 where e = sqrt(poly(w)) - c or c - sqrt(...): decided by squaring monotonically."""
-    e = sp.simplify(e)
+    """e >= 0 for w >= 0 where e = a*sqrt(ratio of polynomials in w) + c: decided by squaring monotonically.
+    Anything else is undecided (analysis-broken), never a verdict."""
+    def dec(x):
+        r_ = sign_on_halfline(x, w, strict=False)
+        if r_ is None:
+            raise Broken("sign of %s for %s >= 0 not decided" % (x, w))
+        return r_
+    e = sp.simplify(exact(e))
     roots = [x for x in e.atoms(sp.Pow) if x.exp == Rational(1, 2)]
     if not roots:
-        return nonneg_poly(e, w)
+        return dec(e)
     if len(roots) != 1:
-        return False
+        raise Broken("sign of %s not decided (several radicals)" % e)
     r = roots[0]
     a = sp.simplify(e.coeff(r))
     c = sp.simplify(e - a * r)
     if not (a.is_number and c.is_number):
-        return False
+        raise Broken("sign of %s not decided (radical with non-constant factor)" % e)
     # a*sqrt(q) + c >= 0
     q = r.base
     if a > 0:
         if c >= 0:
             return True
         # sqrt(q) >= -c/a  <=>  q - (c/a)^2 >= 0
-        return nonneg_poly(q - (c / a) ** 2, w)
+        return dec(q - (c / a) ** 2)
     else:
         if c < 0:
             return False
         # c >= |a| sqrt(q)  <=> (c/a)^2 - q >= 0
-        return nonneg_poly((c / a) ** 2 - q, w)
+        return dec((c / a) ** 2 - q)
